@@ -21,6 +21,8 @@ type SDisk struct {
 	rec    bool
 	events []Event
 	frozen bool // after a simulated power cut: writes are dropped
+	// SlowRead, when set, is called (outside the lock) before a block is read: schedule noise around disk reads
+	SlowRead func(a uint64)
 }
 
 func NewSDisk(size uint64) *SDisk {
@@ -28,6 +30,9 @@ func NewSDisk(size uint64) *SDisk {
 }
 
 func (d *SDisk) ReadTo(a uint64, b []byte) {
+	if f := d.SlowRead; f != nil {
+		f(a)
+	}
 	d.mu.Lock()
 	defer d.mu.Unlock()
 	if a >= d.size {
